@@ -283,6 +283,8 @@ class Session:
                 self.r.inconclusive.append('crash %s %s' % (c.key, what))
             return None
         except D.Hang:
+            # the worker of this variant is gone, and with it whatever state earlier requests of a history built up in it
+            self.state_lost = getattr(self, 'state_lost', set()) | {variant}
             # re-run alone with a ten times larger limit before concluding anything
             d2 = None
             try:
@@ -313,6 +315,10 @@ class Session:
         elif rep.status == D.ST_PROBE:
             self.r.violate('probe:' + rep.diag.split(';')[0], 'returned object probe failed: %s %s' % (rep.diag, what), case)
         elif rep.status == D.ST_BAD:
+            if variant in getattr(self, 'state_lost', set()):
+                # a request of a stateful history reached a fresh worker because an earlier, slow request was re-run elsewhere: the history cannot be continued
+                self.r.inconclusive.append('history abandoned: worker state lost after a request that exceeded the time limit %s' % what)
+                return None
             raise RuntimeError('bad request op=%s' % op)
         return rep
 
